@@ -4,6 +4,7 @@ import ImathVerif.Gen.C09Next
 import ImathVerif.Lemmas.C09Lemmas
 import ImathVerif.Lemmas.C09FrameLemmas
 import ImathVerif.Lemmas.C09NextFrame
+import ImathVerif.Lemmas.C09UpDir
 import Mathlib.Tactic.Ring
 import Mathlib.Tactic.FinCases
 import Mathlib.Analysis.SpecialFunctions.Trigonometric.Basic
@@ -61,6 +62,32 @@ theorem nextFrame_tangent (tmin tmax : α) (sqrt sin cos acos : α → α) (hlen
   nextFrameRot_align sin cos acos hlen hac ti tj hi hj hij
 example : (⟨1, 0, 0⟩ : V3 ℝ) ≠ ⟨0, 0, 0⟩ ∧ (⟨1, 2, 0⟩ : V3 ℝ) ≠ ⟨0, 0, 0⟩ ∧ cross (⟨1, 0, 0⟩ : V3 ℝ) ⟨1, 2, 0⟩ ≠ ⟨0, 0, 0⟩ := by
   refine ⟨by simp, by simp, by simp [cross]⟩
+/-- THE DOCUMENTED PURPOSE, as one statement about the extracted function: a frame at `pi` whose x-row is the direction of the previous
+tangent `ti` is taken by `nextFrame` to a frame at `pj` whose x-row is the direction of the new tangent `tj` (non-zero, non-parallel
+tangents).  Composition of `nextFrame_frame` (axes = old axes · `nextFrameRot`) and `nextFrame_tangent` -/
+theorem nextFrame_xrow (tmin tmax : α) (sqrt sin cos acos : α → α) (hlen : LenSpec (Gen.V3.length tmin tmax sqrt))
+    (hac : AcosSpec sin cos acos) (Mi : M44 α) (pi pj ti tj : V3 α) (hMi : IsFrame Mi) (hpi : row3 Mi = pi)
+    (hx : row0 Mi = nrm (Gen.V3.length tmin tmax sqrt) ti)
+    (hi : ti ≠ ⟨0, 0, 0⟩) (hj : tj ≠ ⟨0, 0, 0⟩) (hij : cross ti tj ≠ ⟨0, 0, 0⟩) :
+    IsFrame (Gen.Frame.nextFrame tmin tmax sqrt sin cos acos Mi pi pj ti tj).1 ∧
+      row3 (Gen.Frame.nextFrame tmin tmax sqrt sin cos acos Mi pi pj ti tj).1 = pj ∧
+      row0 (Gen.Frame.nextFrame tmin tmax sqrt sin cos acos Mi pi pj ti tj).1 = nrm (Gen.V3.length tmin tmax sqrt) tj := by
+  obtain ⟨hF, h3, hr, _⟩ := nextFrame_frame tmin tmax sqrt sin cos acos hlen hac.1 Mi pi pj ti tj hMi hpi
+  refine ⟨hF, h3, ?_⟩
+  have hv : (row0 (Gen.Frame.nextFrame tmin tmax sqrt sin cos acos Mi pi pj ti tj).1).toVec
+      = (nrm (Gen.V3.length tmin tmax sqrt) tj).toVec := by
+    rw [row0_toVec, hr, ← row_vecMul, ← row0_toVec, hx]
+    exact nextFrame_tangent tmin tmax sqrt sin cos acos hlen hac ti tj hi hj hij
+  have h0 := congrFun hv 0; have h1 := congrFun hv 1; have h2 := congrFun hv 2
+  simp [V3.toVec] at h0 h1 h2
+  exact V3.ext' h0 h1 h2
+/-- non-vacuity of the frame hypotheses: the frame `firstFrame` builds has the tangent as its x-row (`firstFrame_frame`); a concrete
+instance: the identity frame at the origin with `ti = (2,0,0)` — `row0 = (1,0,0) = ti^` for every `len` with `LenSpec` -/
+example (len : V3 α → α) (hlen : LenSpec len) : row0 (M44.identity : M44 α) = nrm len ⟨2, 0, 0⟩ := by
+  have h : (⟨2, 0, 0⟩ : V3 α) = smul 2 ⟨1, 0, 0⟩ := by simp [smul]
+  rw [h, nrm_smul_pos hlen (by norm_num) (by simp), nrm_of_unit hlen (by simp [dot])]
+  rfl
+
 /-- real `arccos`, `sin`, `cos` satisfy the assumption -/
 example : AcosSpec Real.sin Real.cos Real.arccos :=
   ⟨Real.sin_sq_add_cos_sq, Real.cos_zero, fun x h1 h2 => ⟨Real.cos_arccos h1 h2, Real.sin_arccos x ▸ Real.sqrt_nonneg _⟩⟩
